@@ -397,6 +397,13 @@ def sec_input_kind(rec, patches=None):
                  detail={k: sorted(v) for k, v in seen.items()}, reproduced=True if ok else replay_input_kind({})[0])
 
 
+def sec_shared_buffers(rec, patches=None):
+    """(viii) objects handed out by functools.lru_cache are process-wide: no task may write into them (AST scan + interleaving query, checks/c10_buffers.py)"""
+    from . import c10_buffers
+
+    c10_buffers.run_section(rec, patches=patches)
+
+
 def sec_binning_chunks(rec, patches=None):
     """binning a dask tomogram does not depend on how it is chunked (executed by C15's real-dask section)"""
     from .c15 import sec_blocksum_dask
@@ -406,7 +413,7 @@ def sec_binning_chunks(rec, patches=None):
 
 def sections(tier):
     S = [("multi", "checks.c10", "sec_multi", {}), ("loading", "checks.c10", "sec_loading", {}), ("shared-state-race", "checks.c10", "sec_race", {}),
-         ("binning-chunks", "checks.c10", "sec_binning_chunks", {}), ("task-purity-mock", "checks.c10", "sec_task_purity", {"n_deg": 3}), ("shared-caches", "checks.c10", "sec_shared_caches", {}), ("input-kind", "checks.c10", "sec_input_kind", {}),
+         ("binning-chunks", "checks.c10", "sec_binning_chunks", {}), ("task-purity-mock", "checks.c10", "sec_task_purity", {"n_deg": 3}), ("shared-caches", "checks.c10", "sec_shared_caches", {}), ("input-kind", "checks.c10", "sec_input_kind", {}), ("shared-buffers", "checks.c10", "sec_shared_buffers", {}),
          ("chunk-order-2x1x1", "checks.c10", "sec_chunk_order", {"chunks": ((30, 30), (60,), (60,)), "n": 3}),
          ("chunk-order-3x1x1", "checks.c10", "sec_chunk_order", {"chunks": ((20, 20, 20), (60,), (60,)), "n": 3})]
     if not quick(tier):
@@ -508,6 +515,13 @@ def replay(data):
         from .c10_tasks import replay_mock_noise
 
         ok, detail = replay_mock_noise(data.get("cex") or {})
+        print("replay:", detail)
+        print("REPRODUCED" if ok else "not reproduced")
+        return 1 if ok else 0
+    if "shared-buffer" in key:
+        from .c10_buffers import replay_threads
+
+        ok, detail = replay_threads(data.get("cex") or {})
         print("replay:", detail)
         print("REPRODUCED" if ok else "not reproduced")
         return 1 if ok else 0
